@@ -142,6 +142,32 @@ Theorem C02_view_and_describe_reachable :
 Proof. exact reachable_view_describe. Qed.
 Print Assumptions C02_view_and_describe_reachable.
 
+(* Every dimension coordinate has 1-dimensional data: preserved by every
+   operation with every argument choice, no hypothesis on the caller's data
+   (set_construct refuses any other rank - the constructor raises -,
+   transpose / f[...] keep the rank, insert_dimension(constructs=True) leaves
+   dimension coordinates and their data axes as they are, convert carries them
+   unchanged). *)
+Theorem C02_dimcoord_1d_step :
+  forall s o, Inv s -> Dim1 s -> Dim1 (fst (step s o)).
+Proof. exact step_dim1. Qed.
+Print Assumptions C02_dimcoord_1d_step.
+
+(* Hence in every reachable state (register language: field, views of any
+   depth, sibling fields) the field can be copied, and every dimension
+   coordinate that has data and recorded data axes spans exactly ONE domain
+   axis, whose size is the length of its data.  The code as it stood
+   (insert_dimension(constructs=True) expanding dimension coordinates too) is
+   refuted in Refuted.v: C02_insert_dimension_2d_dimcoord_refuted. *)
+Theorem C02_dimcoord_one_axis_reachable :
+  forall ops, wops_ok winit ops ->
+  let s := root (wrun ops) in
+  copyable s = true /\
+  forall k sh b axs, In (DimCoord, k, PArr (Some sh) true b) (cons s) -> assoc k (caxes s) = Some axs ->
+    exists a n, axs = [a] /\ sh = [n] /\ axis_size (cons s) a = Some n.
+Proof. exact reachable_dimcoord. Qed.
+Print Assumptions C02_dimcoord_one_axis_reachable.
+
 (* What convert carries: every coordinate (whatever its rank - a scalar
    coordinate set with axes=() included) and every domain ancillary that a
    coordinate reference of the derived field names is held by the derived
